@@ -5,7 +5,7 @@ CONSTANTS
   XS1 <- X1_B
   XS2 <- X2_B
   FS2 <- FS2_B
-  ParamSet <- PS_Quick
+  ParamSet <- PS_Sim
   MaxSteps = 9
   MaxRuns = 3
   D = 10080
